@@ -152,6 +152,8 @@ def jsonify(v):
         return {"s": v.s, "p": v.p, "k": v.k}
     if isinstance(v, Node):
         return {"f": v.f, "a": [jsonify(x) for x in v.a]}
+    if type(v).__name__ == "Aw":
+        return {"f": "awaitable-result", "a": [jsonify(v.value)]}
     if isinstance(v, (bool, str)) or v is None:
         return v
     if isinstance(v, int):
@@ -369,6 +371,7 @@ ASYNC_ITER_FLAVOURS = ("cls", "agen")  # flavours that own something to release
 # --------------------------------------------------------------------------- callables
 
 FLAVOURS_CALL = ("asyncdef", "def", "partial", "obj", "aw", "cls")
+FLAVOURS_SYNC_ONLY = ("mixed", "mixed2")   # for asynctools.sync: calls of one function differ in kind
 
 
 def _semantics(rec, name):
@@ -427,6 +430,15 @@ def make_callable(flavour, rec: Recorder, name, sem=None):
             return Awaitable_(af(*a))
 
         return faw
+    if flavour in ("mixed", "mixed2"):
+        state = {"n": 0}
+
+        def fmixed(*a):
+            state["n"] += 1
+            plain = (state["n"] % 2 == 1) == (flavour == "mixed")
+            return body(*a) if plain else af(*a)
+
+        return fmixed
     if flavour == "cls":
         class AwaitableCall:   # calling the class makes an awaitable instance
             def __init__(self, *a):
